@@ -813,6 +813,45 @@ def gen_expect_cases(rng, which):
                                  "registry": reg, "mode": ["locked", "locked", "unlocked"][k], "allow_criteria_changes": True,
                                  "expect": {"passes": True, "why": "fpxxx 4.0.0 is recorded as audited-as 3.0.0, which is fully audited for safe-to-deploy "
                                             "(that 4.0.0 has meanwhile been published, by somebody no grant covers, changes nothing)"}}))
+    if which == "violation-deep-implication":
+        # a violation naming the LAST criterion of an implication chain three or four hops long dominates an audit / exemption
+        # recorded for the FIRST (implication is transitive whatever the alphabetical order of the names: C04 / C05)
+        for k in range(6):
+            pkgs, store = _tiny()
+            names = [["crit-a", "crit-b", "crit-c", "crit-d"], ["crit-d", "crit-c", "crit-b", "crit-a"], ["crit-a", "crit-c", "crit-b", "crit-d", "crit-e"]][k % 3]
+            for a, b in zip(names, names[1:]):
+                store["criteria"][a] = {"description": f"{a}", "implies": [b]}
+            store["criteria"][names[-1]] = {"description": names[-1], "implies": []}
+            store["policy"]["wsaaa"] = {"criteria": ["safe-to-deploy"]}
+            rec_crit = ["safe-to-deploy", names[0]]
+            if k < 3:
+                store["audits"]["tpaaa"] = [{"kind": "full", "version": "2.0.0", "criteria": rec_crit, "notes": "ours"}]
+            else:
+                store["exemptions"]["tpaaa"] = [{"version": "2.0.0", "criteria": rec_crit, "suggest": True, "notes": "n"}]
+            store["audits"].setdefault("tpaaa", []).append(
+                {"kind": "violation", "violation": ["*", "=2.0.0", ">=1.0.0"][k % 3], "criteria": [names[-1]], "notes": "bad"})
+            out.append(finalize({"id": f"xd{k}", "kind": "resolve", "graph": {"packages": pkgs}, "store_struct": store, "peers_struct": {},
+                                 "registry": {"users": [], "packages": {}, "meta": {}}, "mode": "locked", "allow_criteria_changes": True,
+                                 "expect": {"conflict": "tpaaa", "why": f"a violation for {names[-1]} covers 2.0.0 and the record for {names[0]} "
+                                            f"claims it through the chain {' -> '.join(names)}"}}))
+    if which == "trusted-twin-windows":
+        # two trusted entries for ONE publisher: the one whose window holds the publication date carries a criterion that is not
+        # enough, the one carrying the required criterion has a window that does not hold it: nothing certifies the version (C01 / C06)
+        for k in range(4):
+            pkgs, store = _tiny()
+            when = ["2022-06-15", "2022-06-15", "2021-03-01", "2022-06-15"][k]
+            weak = {"user-id": 1, "start": "2022-01-01", "end": "2023-01-01", "criteria": ["safe-to-run"], "notes": "in date, too weak"}
+            strong = {"user-id": 1, "start": ["2020-01-01", "2022-06-16", "2021-03-02", "2020-01-01"][k],
+                      "end": ["2021-12-31", "2023-06-01", "2021-12-31", "2022-06-14"][k], "criteria": ["safe-to-deploy"], "notes": "out of date"}
+            if k == 2:
+                weak["start"], weak["end"] = "2021-01-01", "2021-03-01"
+            store["trusted"]["tpaaa"] = [weak, strong] if k % 2 == 0 else [strong, weak]
+            store["lock"]["publisher"]["tpaaa"] = [{"version": "2.0.0", "when": when, "user-id": 1, "user-login": "user1", "user-name": "User 1"}]
+            reg = {"users": [[1, "user1", "User 1"]], "packages": {"tpaaa": [{"version": "2.0.0", "by": 1, "when": when}]}, "meta": {}}
+            out.append(finalize({"id": f"xt{k}", "kind": "resolve", "graph": {"packages": pkgs}, "store_struct": store, "peers_struct": {},
+                                 "registry": reg, "mode": ["locked", "unlocked"][k // 2], "allow_criteria_changes": True,
+                                 "expect": {"fails": "tpaaa", "why": f"2.0.0 was published on {when}: inside the window of the safe-to-run grant only; "
+                                            f"the safe-to-deploy grant runs {strong['start']}..{strong['end']}"}}))
     if which == "wildcard-window-gap":
         # one import, two URLs, the same publisher's wildcard audit in each with DISJOINT windows; the version in use was published
         # in the gap: no entry covers it (C06)
